@@ -518,4 +518,56 @@ theorem quat2Mat_mat2Quat_quat2Mat (q : Quat) (hq : normSq4 q = 1) :
     simp only [quat2Mat, quatNeg, mju_quat2Mat_eq, matF, Prod.mk.injEq]
     tuple_ring
 
+/-! ### `mju_subQuat` inverts `mju_quatIntegrate` (stage 2) -/
+
+/-- `mju_subQuat qa qb = mju_quat2Vel (conj qb · qa) 1` (structure of the generated code) -/
+theorem subQuat_eq_quat2Vel (a b : Quat) : subQuat a b = quat2Vel (mulQuat (negQuat b) a) 1 := by
+  obtain ⟨a0, a1, a2, a3⟩ := a; obtain ⟨b0, b1, b2, b3⟩ := b
+  simp only [subQuat, quat2Vel, mulQuat, negQuat, mju_subQuat_eq, mju_negQuat_eq]
+
+/-- **`mju_subQuat` inverts `mju_quatIntegrate`**: for a unit quaternion `q`, a velocity that `mju_normalize3`
+    does not reset (|v| ≥ mjMINVAL), a rotation angle `|h|·|v|` not exceeding the `mjPI` literal of the C code
+    (3.1415926535897931 < π; beyond it `mju_quat2Vel` wraps) and large enough that the axis of the difference
+    quaternion is not reset (|sin(h|v|/2)| ≥ mjMINVAL), `subQuat (quatIntegrate q v h) q = h·v`. -/
+theorem subQuat_quatIntegrate (q : Quat) (v : Vec3) (h : ℝ) (hq : normSq4 q = 1)
+    (hv : minval ≤ Real.sqrt (normSq3 v)) (ha : |h * Real.sqrt (normSq3 v)| ≤ piLit)
+    (hs : minval ≤ |Real.sin (h * Real.sqrt (normSq3 v) * (1/2))|) :
+    subQuat (quatIntegrate q v h) q = (h * v.1, h * v.2.1, h * v.2.2) := by
+  rw [quatIntegrate_eq, normalize4_of_unit q hq, subQuat_eq_quat2Vel, ← mulQuat_assoc,
+    (negQuat_inverse q hq).2, mulQuat_one_left, normalize3_norm, normalize3_parallel v hv]
+  have hn : 0 < Real.sqrt (normSq3 v) := lt_of_lt_of_le minval_pos hv
+  obtain ⟨v0, v1, v2⟩ := v
+  have hnn : Real.sqrt (normSq3 (v0, v1, v2)) * Real.sqrt (normSq3 (v0, v1, v2)) = v0*v0 + v1*v1 + v2*v2 :=
+    Real.mul_self_sqrt (sumsq3_nonneg v0 v1 v2)
+  set n := Real.sqrt (normSq3 (v0, v1, v2)) with hn_def
+  have hu := unit3_of_div v0 v1 v2 n hn hnn
+  simp only [quat2Vel, axisAngle2Quat, mju_axisAngle2Quat_eq]
+  rw [mju_quat2Vel_axisAngle _ _ _ _ hu ha hs]
+  simp only [Prod.mk.injEq]
+  refine ⟨?_, ?_, ?_⟩ <;> (field_simp)
+
+/-- the remaining case of a zero step: the difference of a unit quaternion with itself is the zero vector
+    (the axis is reset to (1,0,0) but the angle `2·atan2(0, 1)` is 0) -/
+theorem subQuat_self (q : Quat) (hq : normSq4 q = 1) : subQuat q q = (0, 0, 0) := by
+  rw [subQuat_eq_quat2Vel, (negQuat_inverse q hq).2]
+  have h0 : ¬ (piLit < 0) := not_lt.mpr piLit_pos.le
+  simp [quat2Vel, quatOne, mju_quat2Vel, mju_normalize3_eq, minval_pos, realAtan2, ofSci_pi, real_lt_iff, h0]
+
+theorem subQuat_quatIntegrate_zero (q : Quat) (v : Vec3) (hq : normSq4 q = 1) :
+    subQuat (quatIntegrate q v 0) q = (0, 0, 0) := by
+  rw [quatIntegrate_zero_scale q v hq, subQuat_self q hq]
+
+/-- the hypotheses of `subQuat_quatIntegrate` are satisfiable: q = 1, v = e_x, h = 1 (a rotation by 1 rad) -/
+example : normSq4 quatOne = 1 ∧ minval ≤ Real.sqrt (normSq3 ((1 : ℝ), (0 : ℝ), (0 : ℝ))) ∧
+    |(1 : ℝ) * Real.sqrt (normSq3 ((1 : ℝ), (0 : ℝ), (0 : ℝ)))| ≤ piLit ∧
+    minval ≤ |Real.sin ((1 : ℝ) * Real.sqrt (normSq3 ((1 : ℝ), (0 : ℝ), (0 : ℝ))) * (1/2))| := by
+  have e : Real.sqrt (normSq3 ((1 : ℝ), (0 : ℝ), (0 : ℝ))) = 1 := by simp [normSq3]
+  rw [e]
+  refine ⟨by simp [normSq4, quatOne], minval_lt_one.le, ?_, ?_⟩
+  · unfold piLit; norm_num
+  · have hs := Real.sin_gt_sub_cube (x := (1 : ℝ) * 1 * (1/2)) (by norm_num) (by norm_num)
+    have hm : minval < 1/4 := by unfold minval; norm_num
+    rw [abs_of_pos (by nlinarith)]
+    nlinarith
+
 end MjProof.C24
